@@ -47,14 +47,15 @@ def gen(rng, idx, tier, seed):
         if fs['ioapi']['kind'] == 'grid':
             dims += [['ROW', fs['ioapi']['ny']], ['COL', fs['ioapi']['nx']]]
     else:
-        core = gen_core.gen_filespec(rng, dtypes=['f4', 'f8', 'i2', 'i4',
-                                                  'i8'], allow_char=False)
+        core = gen_core.gen_filespec(rng, dtypes=['f4', 'f8', 'f8', 'i2',
+                                                  'i4', 'i8'],
+                                     allow_char=False, mask_prob=0.55)
         for vs in core['vars']:
             if np.dtype(vs['dtype']).kind in 'iu':
                 vs['imax'] = 12
         fs = {'core': core}
         dims = [[d[0], d[1]] for d in core['dims']]
-    nd = 1 if rng.random() < 0.7 else 2
+    nd = 1 if rng.random() < 0.6 else 2
     chosen = [dims[i] for i in rng.permutation(len(dims))[:nd]]
 
     def ok(fn, ln):
@@ -65,7 +66,12 @@ def gen(rng, idx, tier, seed):
         fns = [str(rng.choice(pool))]
     else:
         r = rng.random()
-        if r < 0.35:
+        if r < 0.3:
+            # order-dependent pairs (masked mean of means, std of std ...):
+            # the result must be one of the two sequential applications
+            f0 = str(rng.choice(['mean', 'mean', 'mean', 'std', 'var']))
+            fns = [f0, str(rng.choice([f0, f0, f0, 'mean', 'max']))]
+        elif r < 0.45:
             f0 = str(rng.choice(['sum', 'min', 'max', 'prod']))
             fns = [f0, f0]
         elif r < 0.8:
@@ -172,9 +178,9 @@ def run(spec, res):
                                            data=vs.data, mask=vs.mask,
                                            dtype=vs.dtype)
             continue
-        data, mask = vs.data, vs.mask
-        try:
-            for ax, d in sorted(mine, reverse=True):
+        def seq(order):
+            data, mask = vs.data, vs.mask
+            for ax, d in order:
                 fn = fnmap[d]
                 if fn in ops.CALLABLES:
                     data, mask = ref_callable(data, mask, ax, fn)
@@ -183,6 +189,16 @@ def run(spec, res):
                 if mask is not None and not np.any(mask):
                     mask = None
                 expect_len[d] = data.shape[ax]
+            return data, mask
+        try:
+            data, mask = seq(sorted(mine, reverse=True))
+            alt = None
+            if len(mine) > 1 and any(fnmap[d] in ('mean', 'std', 'var')
+                                     for ax, d in mine):
+                # the property fixes no order for non-commuting functions:
+                # either sequential order is accepted (a joint reduction
+                # over both axes at once is not "along each axis")
+                alt = seq(sorted(mine))
         except Exception:
             res.note('reference-raised')
             continue
@@ -229,14 +245,25 @@ def run(spec, res):
                 fnmap[d] == 'var' for ax, d in mine) else 1.0)
             if any(fnmap[d] == 'prod' for ax, d in mine):
                 atol = 0.0
-        problems += snapshot.check_var(got, name, dims=vs.dims, data=data,
-                                       mask=mask, rtol=rtol, atol=atol)
+        p1 = snapshot.check_var(got, name, dims=vs.dims, data=data,
+                                mask=mask, rtol=rtol, atol=atol)
+        if p1 and alt is not None and vdt.kind == 'f':
+            p2 = snapshot.check_var(got, name, dims=vs.dims, data=alt[0],
+                                    mask=alt[1], rtol=rtol, atol=atol)
+            if not p2:
+                p1 = []
+            else:
+                p1 = [p1[0] + ' (neither sequential order of the two '
+                      'functions gives the result)']
+        problems += p1
     for d, ln in expect_len.items():
         if d not in out.dimensions or len(out.dimensions[d]) != ln:
             problems.append('dimension %s length %s, expected %d' % (
                 d, len(out.dimensions[d]) if d in out.dimensions else None,
                 ln))
-    if out2 is not None:
+    noncomm = len(fnmap) > 1 and any(fn in ('mean', 'std', 'var')
+                                      for fn in fnmap.values())
+    if out2 is not None and not noncomm:
         a = snapshot.snap_file(out)
         b = snapshot.snap_file(out2)
         for name in a.vars:
